@@ -24,7 +24,8 @@ package main
 //	                                a leaver that is not announced keeps signing with its old share
 //	      failput <i> <err|cancel>  the next Put that reaches node i's base store fails once: `err` returns an error
 //	                                without touching the store, `cancel` issues it under a cancelled context
-//	      inject <to> <epoch> <idx> [round]   a partial for <round> (default: head of <to> + 1) on top of <to>'s head,
+//	      inject <to> <epoch> <idx> [round]   a partial for <round> (default: head of <to> + 1) on top of <to>'s head (explicit round:
+//	                                on top of round-1 as stored by any node, so that it meets the honest partials of that round in the cache),
 //	                                signed with the share of index <idx> of the polynomial of <epoch> (any index: the
 //	                                polynomial is the harness's), handed to <to>'s ProcessPartialBeacon.
 //	                                Result: snapshot + ` inj=<ok|refused:<why>> hb=<head before> ha=<head after>`
@@ -381,6 +382,26 @@ func (s *netSim) reshareOp(f []string, t0 time.Time) string {
 				return "bad-op"
 			}
 			round = r
+			// an explicit round: the previous signature a signer that stores round-1 would put into the packet (the round
+			// cache is keyed by (round, previous signature) for every scheme): taken from any node that stores round-1,
+			// the receiver's head signature otherwise
+			if r >= 1 {
+				for j := range s.nodes {
+					var st chain.Store
+					if hj := s.handlerOf(j); hj != nil {
+						st = hj.Store()
+					} else if s.nodes[j].mem != nil {
+						st = s.nodes[j].mem
+					}
+					if st == nil {
+						continue
+					}
+					if b, err := st.Get(context.Background(), r-1); err == nil && b != nil {
+						prev = b.Signature
+						break
+					}
+				}
+			}
 		}
 		msg := s.sch.DigestBeacon(&common.Beacon{Round: round, PreviousSig: prev})
 		ep := s.epochs[e]
